@@ -410,6 +410,75 @@ def check_programs(chk, sc, programs, n_nat, seeds, fresh_sel, k_fresh):
         chk.count("violating_programs_fresh")
 
 
+LINKORDER_DDP = '''Binde "Duden/Ausgabe" ein.
+Die Funktion welche gibt eine Zahl zurück,
+ist in "liba/x.a" definiert
+und kann so benutzt werden:
+	"welche"
+Die Funktion andere gibt eine Zahl zurück,
+ist in "libb/y.a" definiert
+und kann so benutzt werden:
+	"andere"
+Die Funktion dritte gibt eine Zahl zurück,
+ist in "libc/z.a" definiert
+und kann so benutzt werden:
+	"dritte"
+Schreibe (welche plus andere plus dritte) auf eine Zeile.
+'''
+
+
+def run_linkorder(chk, sc, n):
+    """libraries from several directories: three static libraries in three directories; two of them define the function `welche`
+    (in members of their own, so that no duplicate-symbol error arises) with different results. Which definition is linked depends on
+    the order of the -L/-l: arguments, so that order has to be the same in every compilation. n fresh kddp processes; the program's
+    output must be the same every time."""
+    d = os.path.join(sc.path, "linkorder")
+    for sub in ("liba", "libb", "libc"):
+        os.makedirs(os.path.join(d, sub))
+    inc = "-I" + os.path.join(vlib.DDP, "lib", "runtime", "include")
+    srcs = {"liba/x1.c": "#include \"DDP/ddptypes.h\"\nddpint welche(void) { return 100; }\n",
+            "libb/y1.c": "#include \"DDP/ddptypes.h\"\nddpint welche(void) { return 200; }\n",
+            "libb/y2.c": "#include \"DDP/ddptypes.h\"\nddpint andere(void) { return 1; }\n",
+            "libc/z1.c": "#include \"DDP/ddptypes.h\"\nddpint welche(void) { return 300; }\n",
+            "libc/z2.c": "#include \"DDP/ddptypes.h\"\nddpint dritte(void) { return 2; }\n"}
+    for rel, text in srcs.items():
+        vlib.write_file(os.path.join(d, rel), text)
+        c = vlib.run(["gcc", "-c", inc, "-o", os.path.join(d, rel[:-2] + ".o"), os.path.join(d, rel)])
+        if c.rc != 0:
+            chk.inconclusive += 1
+            return
+    for lib, members in (("liba/x.a", ["liba/x1.o"]), ("libb/y.a", ["libb/y1.o", "libb/y2.o"]), ("libc/z.a", ["libc/z1.o", "libc/z2.o"])):
+        if vlib.run(["ar", "rcs", os.path.join(d, lib)] + [os.path.join(d, m) for m in members]).rc != 0:
+            chk.inconclusive += 1
+            return
+    main = os.path.join(d, "main.ddp")
+    vlib.write_file(main, LINKORDER_DDP)
+
+    def once(i):
+        exe = os.path.join(d, "out%d" % i)
+        c = vlib.kddp_compile(main, exe)
+        if c.timed_out:
+            return None
+        if c.rc != 0 or not os.path.exists(exe):
+            return ("compile-failed", re.sub(r"/\S*/", "", (c.err or c.out).strip().split("\n")[0])[:120])
+        r = vlib.run_exe(exe)
+        os.unlink(exe)
+        return None if r.timed_out else (r.rc, r.out)
+    res = vlib.pmap(once, range(n))
+    vals = [r for r in res if r is not None]
+    chk.inconclusive += len(res) - len(vals)
+    chk.evaluations += 1
+    chk.distinct.add("linkorder")
+    chk.count("linkorder_fresh_compilations", len(vals))
+    kinds = {}
+    for v in vals:
+        kinds[v] = kinds.get(v, 0) + 1
+    if len(kinds) > 1:
+        chk.violation({"kind": "behaviour of the executable", "site": "linker: libraries of several directories", "effect": "which definition of a symbol is linked", "level": "fresh kddp processes"},
+                      files={"main.ddp": LINKORDER_DDP, "sources.json": json.dumps(srcs, indent=1), "observed.json": json.dumps({str(k): v for k, v in kinds.items()}, indent=1)},
+                      text="%d compilations of one program: %s" % (len(vals), kinds))
+
+
 def run(tier):
     vlib.ensure_build(asan=False)
     chk = Check(PID, tier)
@@ -438,6 +507,7 @@ def run(tier):
     ]
     with Scratch("c16") as sc:
         check_programs(chk, sc, programs, n_nat, seeds, fresh_sel, k_fresh)
+        run_linkorder(chk, sc, 48 if tier == "quick" else 160)
     chk.extra["bounds"] = {"programs": len(programs), "catalogue": len(cat), "natural_runs": n_nat, "perturbation_seeds": n_seeds,
                            "fresh_programs": len(fresh_sel), "fresh_processes_per_program": "%d natural + %d perturbed (programs with imports)" % (k_fresh, FRESH_PERTURBED)}
     return chk.finish(min_events=len(programs) // 2)
@@ -446,6 +516,14 @@ def run(tier):
 def replay(path):
     """re-run one replay directory (both levels, thorough repetition counts)"""
     vlib.ensure_build(asan=False)
+    if os.path.exists(os.path.join(path, "sources.json")):      # the link-order scenario
+        os.environ["VERIF_REPLAYING"] = "1"
+        chk = Check(PID, "replay")
+        with Scratch("c16r") as sc:
+            run_linkorder(chk, sc, 160)
+        if chk.violations:
+            print("VIOLATION property=%s replay=%s" % (PID, path))
+        return 1 if chk.violations else 0
     data = json.load(open(os.path.join(path, "program.json")))
     p = data["program"]
     p["files"] = data["files"]
